@@ -478,7 +478,22 @@ class C18(Property):
             'for bytesSem / textSem / lfSem) against the real io.BytesIO AND tempfile.TemporaryFile / io.StringIO(newline="") / '
             'the default io.StringIO(): every op sequence of length 2 (3 after a write) over a 15-17 op alphabet plus random '
             'histories, overwriting writes and (bytes) seeks, writes and reads past the end included; non-trivial = a '
-            'write or read after a seek. distinct = distinct canonical cases.')
+            'write or read after a seek. Round 5, generated FIRST: "rejected" = a call the class refuses (write of bytes / str '
+            'to the other class, of None, 5, a bytearray, a list; (S) of a str holding a lone surrogate; writelines with such a '
+            'piece in the MIDDLE of the batch or of a non-iterable; seek(n, 7); truncate(-1); (B) seek(-1); read("a"), '
+            'read(1.5), readline("a"), seek("a"), seek(None)) once or twice, as the first call on a fresh object or after '
+            'nothing / seek(0) / a read / a readline, followed by a probe, an appending write, a read, getvalue, tell - the io '
+            'reference skips the call (writelines: writes the pieces before the refused one); MultiFileReader over members '
+            'handed over AWAY from offset 0 (just written: at the end; a header consumed: at 1; mixed) for every partition x '
+            'read / seek(0) mixes, its rejected calls (seek(1), seek(0, SEEK_CUR), read("a")) between reads and every argument '
+            'form (read(amt=n), read(None), seek(0, os.SEEK_SET), seek(offset=0, whence=0)); "spelling" = every argument form of '
+            'the spooled methods (read(n=k), seek(p, 0), seek(pos=, mode=), readline(None / length=), readlines(0 / -1 / None / '
+            'sizehint=0), f.__len__(), f.next(), f.__next__(), iter(f), the four constructor forms) and the harmless queries '
+            '(flush, isatty, seekable, readable, writable, closed, bool, iter, __enter__, _rolled, softspace); "sibling" = writes, '
+            'reads, rollover, rejected calls, close() and calls after close() on ANOTHER live instance between the steps of the '
+            'judged one; every list returned (readlines, list(f), loop) is spoiled by the caller; 30 % of the random '
+            'histories carry such calls; max_size also exactly the number of bytes written. '
+            'distinct = distinct canonical cases.')
     ASSUMPTIONS = ['io.BytesIO and tempfile.TemporaryFile are the same abstract file (content + position) for the listed calls '
                    '(round 3: tested directly on every run, kind F: same history on both objects and on the Lean reference file)',
                    'text is a sequence of Unicode scalar values (no lone surrogates); UTF-8 is modelled as a prefix code with '
@@ -492,6 +507,18 @@ class C18(Property):
                    'f.pos, f.buf, f.len, read(-1) are spellings of tell(), getvalue(), len(f), read(): same model operation, '
                    'same io reference call; writelines(iterable) is judged against io.writelines of the same pieces and '
                    'modelled as the loop of writes it is (Lean: = one write of the joined pieces)',
+                   'round 5: a call that RAISES (wrong-type or unencodable argument of write / writelines, a whence that does not '
+                   'exist, negative truncate / seek, wrong-type size or position) must leave content and position alone: the '
+                   'reference is the io object that SKIPPED the call (writelines with a refused piece: that wrote the pieces '
+                   'before it, as io.writelines itself does); which exception is raised is not compared; if the implementation '
+                   'ACCEPTS a call generated as rejected (e.g. a bytearray) the history leaves the judged domain at that call',
+                   'round 5: MultiFileReader over members handed over at another position than 0: the first pass delivers the '
+                   'members\' UNREAD parts in order, seek(0) rewinds every member and from then on the whole contents are '
+                   'delivered (Lean: mfr_offset_first_pass, mfr_offset_seek0_restarts)',
+                   'round 5: another live instance of the class and the harmless queries of the file API (flush, isatty, '
+                   'seekable, readable, writable, closed, bool(f), iter(f), f.__enter__(), f._rolled, softspace) are no events '
+                   'of the reference or the model: nothing may move; keyword / dunder / explicit-default spellings are the same '
+                   'model operation as the plain call',
                    'readlines(sizehint > 0) and readline(0) are outside the statement (CPython\'s BytesIO and BufferedRandom '
                    'differ on the hint themselves); positions beyond the data are outside the statement']
     EXTRA_TRUSTED = ['CPython 3.12 codecs.StreamReader.read/readline/seek/reset and StreamRecoder wrappers, transliterated by '
@@ -765,16 +792,19 @@ class C18(Property):
         seqs = [[['s'], ['ra']], [['s'], ['r', 3], ['ra']], [['r', 1], ['s'], ['ra']], [['ra'], ['s'], ['r', 2], ['ra']],
                 [['r', 2], ['ra']], [['ra'], ['r', 1]], [['r', 9], ['s'], ['r', 9]], [['s'], ['r', 2], ['s'], ['ra']],
                 [['s'], ['r', 0], ['s'], ['r', 1], ['r', 9]],
-                [['x', 's1'], ['sw'], ['rk', 2], ['x', 'sc'], ['rn']], [['rk', 1], ['x', 'rb'], ['skk'], ['x', 's1'], ['r', 9]]]
+                [['x', 's1'], ['sw'], ['rk', 2], ['x', 'sc'], ['rn']], [['rk', 1], ['x', 'rb'], ['skk'], ['x', 's1'], ['r', 9]],
+                # a rejected call BETWEEN reads (nothing may be rewound, skipped or re-read)
+                [['r', 1], ['x', 's1'], ['r', 9]], [['x', 's1'], ['ra']], [['r', 3], ['x', 's1'], ['x', 'sc'], ['ra']],
+                [['ra'], ['x', 's1'], ['ra']], [['r', 2], ['x', 'rb'], ['x', 'sc'], ['r', 2], ['ra']]]
         j = 0
         for text, files in self.mfr_partitions():
             n = len(files)
             lens = [len(p) if text else len(p) // 2 for p in files]
-            ats = [lens, [min(1, ln) for ln in lens], [0] + lens[1:], lens[:-1] + [0]]
+            ats = [lens, [min(1, ln) for ln in lens], [0] + lens[1:], lens[:-1] + [0], [0] * n]
             for at in ats:
-                if not any(at):
-                    continue
                 for seq in seqs:
+                    if not any(at) and not any(o[0] in ('x', 'sw', 'skk', 'rk', 'rn') for o in seq):
+                        continue        # members at 0 and plain ops: mfr_seek_family / mfr_exhaustive
                     j += 1
                     mk = ('written', 'io', 'spooled', 'written', 'tmp')[j % 5]
                     if mk == 'tmp' and text:
@@ -862,6 +892,8 @@ class C18(Property):
         """the same history for max_size 1, a mid value, larger than the data (and chunk sizes for S)"""
         n = self.data_len(case)
         sizes = [1, max(2, n // 2 + rng.randint(0, 1)), n + 1 + rng.randint(0, 3)]
+        if rng.random() < 0.3:
+            sizes[1] = max(2, n)          # the LAST byte written reaches max_size exactly (`>=`): rolls over there
         for ms in sizes:
             if case['k'] == 'S':
                 for ch in (chunks or [rng.choice([1, 2, 3, 5, 7]), None]):
@@ -901,6 +933,8 @@ class C18(Property):
         nops = rng.randint(1, 10)
 
         liney = rng.random() < 0.35
+        spice = rng.random() < 0.3        # round 5: rejected calls, another instance, queries, other spellings
+        xs = self.x_ops(kind)
 
         def payload():
             if liney:       # many short lines: the codec reader caches the lines of one chunk
@@ -943,10 +977,34 @@ class C18(Property):
                 op = ['se', 0 if text or rng.random() < 0.4 else rng.randint(0, n)]
             else:
                 op = [o]
+            # round 5: another spelling of the same call
+            if spice and rng.random() < 0.25:
+                alt = {'r': ['rk'], 'sk': ['sk0', 'skk'], 'sc': ['sck'], 'rL': ['rLk'], 'l': ['ln'], 'n': ['nx', 'nd'],
+                       'rl': ['rln', 'rlk'], 'rs': ['rs0', 'rsk', 'rsm', 'rsn'], 'ra': ['rak'] + ([] if text else ['rn']),
+                       'it': ['itr']}.get(op[0])
+                if alt:
+                    op = [rng.choice(alt)] + op[1:]
             ops.append(op)
             apply_op(ref, op, kind, True)
+            # round 5: a rejected call / an op on another instance / a harmless query in between
+            if spice and rng.random() < 0.3:
+                r = rng.random()
+                if r < 0.5:
+                    sp = rng.choice(xs)
+                    if written(sp, kind) and ref.tell() != len(ref.getvalue()):
+                        sp = ['x', 'w', 'none']
+                elif r < 0.8:
+                    sp = ['o', rng.choice([['w', op[1]] if op[0] == 'w' else ['ra'], ['sk', 0], ['ro'], ['l'], ['cl'], ['rl'],
+                                           rng.choice(xs)])]
+                else:
+                    sp = ['q', rng.choice(Q_NAMES)]
+                for _ in range(rng.choice([1, 1, 2])):
+                    ops.append(list(sp))
+                    ref_special(ref, sp, kind)
         ops += [['g'], ['t']]
         case = {'k': kind, 'ops': ops}
+        if spice:
+            case['ctor'] = rng.randint(0, 3)
         if overwrite:
             case['ow'] = 1  # (not generated any more)
         return case
@@ -1467,26 +1525,65 @@ class C18(Property):
 
     # known finding of round 5 (repaired by `fix:` 0b8bf8c on r5-c18-work; `known` until that commit is in the tree
     # under test): SpooledStringIO.seek(x) with x not an integer ('a', None) raises TypeError AFTER it has rewound the raw
-    # stream: tell() keeps the old position, the next read starts at 0.  Matched only when an ['x', 'sb', ..] call
-    # precedes the failing op of a SpooledStringIO history and the value returned is exactly what io.StringIO returns
-    # when those rejected seeks are replaced by seek(0) (the stream rewound, nothing else wrong).
+    # stream: tell() keeps the old position, the next read starts at 0 (and the next write overwrites from 0).  Matched
+    # only when (1) an ['x', 'sb', ..] call on a SpooledStringIO precedes the failing op, (2) that call DID leave the raw
+    # stream somewhere else than tell() says (looked at directly: the raw offset was moved to 0 by the call), and (3) the
+    # same history WITHOUT the rejected seeks passes the oracle on this implementation - the failure is theirs alone.
     def finding_seek_nonint_not_atomic(self, case, failure):
         d = getattr(failure, 'detail', None)
-        if case.get('k') != 'S' or not d or failure.tag not in ('read', 'lines'):
+        if case.get('k') != 'S' or not d or getattr(self, '_in_finding', False):
             return False
         i = d['i']
         if not any(op[0] == 'x' and op[1] == 'sb' for op in case['ops'][:i]):
             return False
-        ref = io.StringIO(newline='')
-        v = None
-        for op in case['ops'][:i + 1]:
-            if op[0] == 'x' and op[1] == 'sb':
-                ref.seek(0)
-            elif op[0] in SPECIAL:
-                ref_special(ref, op, 'S')
-            else:
-                v = apply_op(ref, op, 'S', True)
-        return d['got'] == (['STOP'] if v is StopIteration else canon(v, True))
+        if not self.seek_nonint_rewinds(case, i):
+            return False
+        without = dict(case, ops=[op for op in case['ops'] if not (op[0] == 'x' and op[1] == 'sb')])
+        self._in_finding = True
+        try:
+            saved = dict(self.stats)
+            ok = self.oracle(without, self.impl(without)) is None
+            self.stats.clear()
+            self.stats.update(saved)
+        finally:
+            self._in_finding = False
+        self._nt = False
+        return ok
+
+    def seek_nonint_rewinds(self, case, upto):
+        """replay the history up to op `upto`; True if some rejected seek('a') / seek(None) before it left the raw stream
+        at offset 0 although it stood elsewhere before the call (the defect itself, observed on the object)"""
+        import boltons.ioutils as iu
+        saved = iu.READ_CHUNK_SIZE
+        f = None
+        try:
+            with time_limit(self.case_limit()):
+                if case.get('chunk') is not None:
+                    iu.READ_CHUNK_SIZE = case['chunk']
+                f = iu.SpooledStringIO(max_size=case['ms'])
+                for op in case['ops'][:upto]:
+                    if op[0] == 'o' or op[0] == 'q':
+                        continue
+                    if op[0] == 'x':
+                        before = f.buffer.tell()
+                        try:
+                            x_call(f, op, 'S')
+                        except Exception:
+                            pass
+                        if op[1] == 'sb' and before != 0 and f.buffer.tell() == 0:
+                            return True
+                        continue
+                    apply_op(f, op, 'S', False)
+        except Exception:
+            return False
+        finally:
+            iu.READ_CHUNK_SIZE = saved
+            try:
+                if f is not None:
+                    f.close()
+            except Exception:
+                pass
+        return False
 
     # ------------------------------------------------------------------ shrinking
     def shrink(self, case):
@@ -1563,12 +1660,18 @@ class C18(Property):
                 c = dict(case, ops=ops[:i] + [[ALIAS[op[0]]]] + ops[i + 1:])
                 if ok(c):
                     yield c
+            elif op[0] in ARG_ALIAS and case['k'] != 'F':
+                c = dict(case, ops=ops[:i] + [[ARG_ALIAS[op[0]], op[1]]] + ops[i + 1:])
+                if ok(c):
+                    yield c
             elif op[0] in ARG_OPS and op[1] > 0:
                 for v in {0, op[1] // 2, op[1] - 1}:
                     if v < op[1]:
                         c = dict(case, ops=ops[:i] + [[op[0], v]] + ops[i + 1:])
                         if ok(c):
                             yield c
+        if case.get('ctor'):
+            yield dict(case, ctor=0)
         if case['k'] == 'S' and case.get('chunk') is None:
             yield dict(case, chunk=3)
 
